@@ -518,6 +518,25 @@ impl<T> JoinHandle<T> {
     }
   }
 
+  /// (returns the handle by value, std returns a reference: method calls on it are the same)
+  pub fn thread(&self) -> Thread {
+    match self {
+      JoinHandle::Std(h) => {
+        let t = h.thread().clone();
+        let n = {
+          use std::hash::{Hash, Hasher};
+          let mut hs = std::collections::hash_map::DefaultHasher::new();
+          t.id().hash(&mut hs);
+          hs.finish()
+        };
+        Thread { id: ThreadId(0, n), name: t.name().map(|s| s.to_string()), real: Some(t) }
+      }
+      JoinHandle::Model { tid, .. } => {
+        Thread { id: ThreadId(rt::exec_serial(), *tid as u64), name: None, real: None }
+      }
+    }
+  }
+
   pub fn is_finished(&self) -> bool {
     match self {
       JoinHandle::Std(h) => h.is_finished(),
@@ -592,6 +611,72 @@ where
       JoinHandle::Model { tid, slot }
     }
     None => JoinHandle::Std(std::thread::spawn(f)),
+  }
+}
+
+/// `thread::current()`: identities are per logical thread of the execution (the OS threads
+/// behind them are pooled and reused, their std ThreadIds would repeat)
+#[derive(Clone, Copy, Debug, PartialEq, Eq, Hash, PartialOrd, Ord)]
+pub struct ThreadId(u64, u64);
+
+#[derive(Clone, Debug)]
+pub struct Thread {
+  id: ThreadId,
+  name: Option<String>,
+  real: Option<std::thread::Thread>,
+}
+
+impl Thread {
+  pub fn id(&self) -> ThreadId {
+    self.id
+  }
+  pub fn name(&self) -> Option<&str> {
+    self.name.as_deref()
+  }
+  pub fn unpark(&self) {
+    match &self.real {
+      Some(t) => t.unpark(),
+      None => {
+        if rt::exec_serial() == self.id.0 {
+          rt::unpark(self.id.1 as usize)
+        }
+      }
+    }
+  }
+}
+
+pub fn current() -> Thread {
+  match rt::current() {
+    Some(ctx) => Thread {
+      id: ThreadId(rt::exec_serial(), ctx.tid as u64),
+      name: Some(rt::thread_name()),
+      real: None,
+    },
+    None => {
+      let t = std::thread::current();
+      // outside an execution: a stable number derived from the std id
+      let n = {
+        use std::hash::{Hash, Hasher};
+        let mut h = std::collections::hash_map::DefaultHasher::new();
+        t.id().hash(&mut h);
+        h.finish()
+      };
+      Thread { id: ThreadId(0, n), name: t.name().map(|s| s.to_string()), real: Some(t) }
+    }
+  }
+}
+
+pub fn park() {
+  match rt::current() {
+    Some(_) => rt::park(None),
+    None => std::thread::park(),
+  }
+}
+
+pub fn park_timeout(dur: Duration) {
+  match rt::current() {
+    Some(_) => rt::park(Some(dur.as_nanos().min(u64::MAX as u128) as u64)),
+    None => std::thread::park_timeout(dur),
   }
 }
 
